@@ -142,3 +142,90 @@ func progH() schedProgram {
 		return bodies, check
 	}}
 }
+
+// progI: the expiry sweep against a node that is heard from again and
+// restored by the liveness task. Once the liveness task has restored the node
+// (observed by the thread that ran it) nothing may forget it: a restored node
+// has no expiry.
+func progI() schedProgram {
+	var last string
+	return schedProgram{Name: "I-sweep-vs-restore", outcome: &last, Build: func() ([]func(), func(o *vsync.Outcome) []string) {
+		c := newNodeCore()
+		c.learnRemote("nY", "10.0.0.2:7000")
+		c.learnRemote("nZ", "10.0.0.3:7000", "e2")
+		c.fd.Remove("nZ")
+		c.fd.ReportWithTimestamp("nZ", time.Now().Add(-2*time.Hour))
+		c.gs.UpdateLiveness(float64(gossip.VSuspicionThreshold)) // nZ flagged, expiry armed
+		hb := remoteDelta("nZ", "10.0.0.3:7000",
+			gossip.Entry{Key: "proxy_addr", Value: "p-nZ", Version: 1},
+			gossip.Entry{Key: "admin_addr", Value: "a-nZ", Version: 2},
+			gossip.Entry{Key: "endpoint:e2", Value: "1", Version: 3},
+			gossip.Entry{Key: "endpoint:e3", Value: "1", Version: 4})
+		restoredSeen := false
+		bodies := []func(){
+			func() { c.gs.RemoveExpiredAt(time.Now().Add(10 * time.Minute)) },
+			func() {
+				_ = c.pl.VHandlePacket(hb)
+				c.gs.UpdateLiveness(float64(gossip.VSuspicionThreshold))
+				if n, ok := c.gs.Node("nZ"); ok && !n.Unreachable {
+					restoredSeen = true
+				}
+			},
+			func() { _, _ = c.cs.LookupEndpoint("e2") },
+		}
+		check := func(o *vsync.Outcome) []string {
+			msgs := c.mirrored()
+			msgs = append(msgs, c.quiescent()...)
+			_, present := c.gs.Node("nZ")
+			if restoredSeen && !present {
+				msgs = append(msgs, "restored-node-forgotten: nZ was heard from and restored by the liveness task (reachable, no expiry), and was forgotten by the sweep afterwards")
+			}
+			last = fmt.Sprintf("%s restored=%v present=%v", c.finalState(), restoredSeen, present)
+			return msgs
+		}
+		return bodies, check
+	}}
+}
+
+// progJ: the periodic compaction of a node's own state against the
+// application writing and deleting keys. Whatever the order, no write is lost
+// and no deleted key comes back.
+func progJ() schedProgram {
+	var last string
+	return schedProgram{Name: "J-compaction-vs-local-writes", outcome: &last, Build: func() ([]func(), func(o *vsync.Outcome) []string) {
+		c := newNodeCore()
+		c.gs.UpsertLocal("ka", "1")
+		c.gs.UpsertLocal("kb", "1")
+		c.gs.DeleteLocal("kb")
+		bodies := []func(){
+			func() { c.gs.CompactLocal(1) },
+			func() { c.gs.UpsertLocal("kc", "1"); c.gs.DeleteLocal("ka") },
+			func() { c.gs.UpsertLocal("kd", "2"); _ = c.gs.Delta(c.gs.Digest(), true) },
+		}
+		check := func(o *vsync.Outcome) []string {
+			var msgs []string
+			live := map[string]string{}
+			seen := map[uint64]string{}
+			ln := c.gs.LocalNode()
+			for _, e := range ln.Entries {
+				if other, dup := seen[e.Version]; dup {
+					msgs = append(msgs, fmt.Sprintf("local-versions-collide: %s and %s both have version %d", other, e.Key, e.Version))
+				}
+				seen[e.Version] = e.Key
+				if e.Version > ln.Version {
+					msgs = append(msgs, fmt.Sprintf("local-entry-above-node-version: %s has version %d, the node %d", e.Key, e.Version, ln.Version))
+				}
+				if !e.Deleted && strings.HasPrefix(e.Key, "k") {
+					live[e.Key] = e.Value
+				}
+			}
+			if got, want := fmt.Sprint(live), fmt.Sprint(map[string]string{"kc": "1", "kd": "2"}); got != want {
+				msgs = append(msgs, fmt.Sprintf("local-write-lost: the application wrote kc=1, kd=2 and deleted ka, kb; the node's own state shows %s", got))
+			}
+			msgs = append(msgs, c.quiescent()...)
+			last = fmt.Sprint(live)
+			return msgs
+		}
+		return bodies, check
+	}}
+}
